@@ -155,6 +155,8 @@ def _start(ctx, env, cls, feats, sym, lite=False, pin=None):
         mt.add_subtask(Subtask(a, em.ParameterExp(mt.parameter("x")), ident="ms1", _env=env))
         P.add_method(mt)
         P.task_network.add_subtask(Subtask(tk, em.ObjectExp(h.o1), ident="s1", _env=env))
+        # a primitive action directly in the initial task network: its subtask must follow the CLONE's action object
+        P.task_network.add_subtask(Subtask(a, em.ObjectExp(h.o1), ident="s0", _env=env))
     five = _five(sym)
     if "tinc" in feats:
         P.add_increase_effect(GlobalStartTiming(five), em.FluentExp(h.n), em.Int(1))
